@@ -95,6 +95,11 @@ fn gen_text(u: &mut Unstructured, big: bool) -> Vec<u8> {
 /// and reports `InvalidData`), in every pass alike.
 const NOT_UTF8: &str = "\u{0}<not UTF-8>";
 
+/// Last element of an expected sequence taken from the first pass of a fresh
+/// lender when that pass ended in an error of the source: every later pass
+/// must fail at the same place, and nothing is asked after it.
+const TERMINAL_ERR: &str = "\u{0}<source error>";
+
 /// The harness' own splitter: split at '\n', drop one preceding '\r'; a
 /// non-empty unterminated tail is a line.
 fn split_lines(text: &[u8]) -> Vec<String> {
@@ -194,6 +199,11 @@ fn drive<T: ?Sized, L: RewindableIoLender<T>>(cx: &mut Ctx, l: L, oracle: &[Stri
                         (Some(Err(_)), Some(w)) if w == NOT_UTF8 => {
                             pos += 1;
                             consumed_total += 1;
+                        }
+                        (Some(Err(_)), Some(w)) if w == TERMINAL_ERR => {
+                            pos += 1;
+                            consumed_total += 1;
+                            ended = true;
                         }
                         (Some(Err(e)), w) => return Err(Fail::mismatch("item.err", format!("item.err: pass {pass}, item {pos}: the lender returned the error {e:?}, expected {:?}", w.map(|x| trunc(x))))),
                         (None, Some(w)) => return Err(Fail::mismatch("item.missing", format!("item.missing: pass {pass} ended after {pos} items, expected {} (next would be {:?})", oracle.len(), trunc(w)))),
@@ -300,7 +310,7 @@ impl Property for C20 {
         vec![Segment::random("histories", tier.pick(480_000, 18_000_000), &[0], 48, 700), Segment::random("big-inputs", tier.pick(12_000, 600_000), &[1], 64, 3000)]
     }
     fn rule(&self) -> &'static str {
-        "case = (lender kind in {LineLender over Cursor / BufReader<File> / small-capacity BufReader, ZstdLineLender over Cursor / File, GzipLineLender over Cursor / File, FromIntoIterator over Vec<u32> / Range / Vec<String>}, optional take(m) with m in {0,1,len-1,len,len+1,..}, input text with empty lines, CRLF/LF/mixed terminators, lone CR, multi-byte characters, lines that are not valid UTF-8 (an error item in every pass), a first line starting with a UTF-8 byte-order mark or '#', zstd sources made of 1-3 concatenated frames and gzip sources of 1-3 members cut anywhere (for several gzip members the reference is the first pass of a fresh lender), lines longer than the BufReader, with/without final terminator, history of Next xj / Rewind with <=7 rewinds) decoded from bytes; oracle = the harness' own line splitter (resp. the item vector) truncated to m; every item of every pass compared, None exactly at the end, rewind() must be Ok. Non-trivial: a rewind after >=1 consumed item on a non-empty input; distinct = distinct hash of the decoded case."
+        "case = (lender kind in {LineLender over Cursor / BufReader<File> / small-capacity BufReader, ZstdLineLender over Cursor / File, GzipLineLender over Cursor / File, FromIntoIterator over Vec<u32> / Range / Vec<String>}, optional take(m) with m in {0,1,len-1,len,len+1,..}, input text with empty lines, CRLF/LF/mixed terminators, lone CR, multi-byte characters, lines that are not valid UTF-8 (an error item in every pass), a first line starting with a UTF-8 byte-order mark or '#', zstd frames declaring a 2^28..2^30-byte window (reference: the first pass of a fresh lender), zstd sources made of 1-3 concatenated frames and gzip sources of 1-3 members cut anywhere (for several gzip members the reference is the first pass of a fresh lender), lines longer than the BufReader, with/without final terminator, history of Next xj / Rewind with <=7 rewinds) decoded from bytes; oracle = the harness' own line splitter (resp. the item vector) truncated to m; every item of every pass compared, None exactly at the end, rewind() must be Ok. Non-trivial: a rewind after >=1 consumed item on a non-empty input; distinct = distinct hash of the decoded case."
     }
     fn run(&self, data: &[u8], cx: &mut Ctx) -> R {
         let (mode, rest) = data.split_first().unwrap_or((&0, &[]));
@@ -324,6 +334,32 @@ impl Property for C20 {
                 run_kind!(cx, c, lines, show_str, LineLender::from_file(f))
             }
             2 => run_kind!(cx, c, lines, show_str, LineLender::new(BufReader::with_capacity(c.bufcap, Cursor::new(c.text.clone())))),
+            3 if c.bufcap == 7 && !c.text.is_empty() => {
+                // a frame whose header declares a window of 2^28..2^30 bytes (`zstd --long`): whether the lender
+                // decodes it or rejects it, every pass must do the same; the reference is the first pass of a
+                // fresh lender, up to its first source error
+                cx.label("zstd_long_window");
+                let z = {
+                    let mut e = zstd::stream::write::Encoder::new(Vec::new(), 1).expect("zstd encoder");
+                    e.window_log(28 + (c.items.len() % 3) as u32).expect("window_log");
+                    e.write_all(&c.text).unwrap();
+                    e.finish().unwrap()
+                };
+                let mut probe = cx.must("ZstdLineLender::new", || ZstdLineLender::new(Cursor::new(z.clone())))?.map_err(|e| Fail::mismatch("new.err", format!("ZstdLineLender::new failed: {e}")))?;
+                let mut lines = vec![];
+                while let Some(r) = cx.must("next", || probe.next().map(|r| r.map(|s| s.to_string()).map_err(|e| e.kind())))? {
+                    match r {
+                        Ok(s) => lines.push(s),
+                        Err(std::io::ErrorKind::InvalidData) if lines.len() < 100_000 => lines.push(NOT_UTF8.to_string()),
+                        Err(_) => {
+                            lines.push(TERMINAL_ERR.to_string());
+                            break;
+                        }
+                    }
+                }
+                let l = cx.must("ZstdLineLender::new", || ZstdLineLender::new(Cursor::new(z)))?.map_err(|e| Fail::mismatch("new.err", format!("ZstdLineLender::new failed: {e}")))?;
+                run_kind!(cx, c, lines, show_str, l)
+            }
             3 => {
                 // concatenated frames decode as one stream
                 let ps = pieces(&c.text, &c);
